@@ -1675,6 +1675,31 @@ def _exponent_bound_gates(F, s, e):
             if d[0] == "bool" and d[2] is False and any(c.endswith("Iterator>::any") or c.endswith("Iterator::any") for c in ap_calls(d[1])):
                 ok1 = True
     cm = [f for f in F.by_crate[CORE] if f.path.startswith("types::number::Number::pow::{closure") and any("checked_mul" in t["callee"]["path"] for _, t in f.calls() if "callee" in t)]
+    if not ok1:
+        # the same gate as a loop with a flag (`let mut out_of_range = false; for .. { if <checked_mul is None or too large> { flag = true;
+        # break } }; if flag { return Err }`): powi lies on the flag's false side, the flag starts false and is set true only behind
+        # a test of checked_mul's answer
+        for bb in powi:
+            for g in pw.guards_of(bb):
+                d = pw.guard_desc(g)
+                ap, flip = k2.peel_not(d[1]) if d[0] == "bool" else (d[1], False)
+                if d[0] == "bool" and ((d[2] is False) != flip) and ap[0][0] == "local" and not ap[1]:
+                    defs_ = pw.defs().get(ap[0][1], [])
+                    vals = []
+                    for df in defs_:
+                        c = const_of(df[3]["a"]) if df[0] == "stmt" and df[3].get("k") == "use" else None
+                        if c is None or c.get("ty") != "bool":
+                            vals = None
+                            break
+                        behind = [ap_str(x[1]) for x in (pw.guard_desc(g2) for g2 in pw.guards_of(df[1]))]
+                        vals.append((bool(c.get("int")), any("checked_mul" in b_ for b_ in behind)))
+                    if vals and any(not v for v, _ in vals) and any(v for v, _ in vals):
+                        # every `true` is behind a checked_mul test, or is the value of a multi-way choice computed from one
+                        trues_ok = all(cm_ for v, cm_ in vals if v) or \
+                            any("checked_mul" in ap_str(pw.apath(t2["args"][0])) for _, t2 in pw.calls() if "callee" in t2 and t2["args"])
+                        if trues_ok and any("checked_mul" in t2["callee"]["path"] for _, t2 in pw.calls() if "callee" in t2):
+                            ok1 = True
+                            cm = cm or [pw]
     # (a private helper the range test has been moved into is put back in place; the filter itself stays a call)
     eq = F.find(CORE, "loader::load::eval_quantity", inline=True, keep=("Option::<T>", "Iterator", "bool>::then"))
     dp = [(bb, t) for bb, t in eq.calls() if "callee" in t and t["callee"]["path"].endswith("Dimensionality::pow")]
